@@ -35,6 +35,7 @@ import (
 	"verif/engine/ev"
 	"verif/engine/pool"
 	"verif/engine/runner"
+	"verif/engine/sched"
 )
 
 func repoRoot() string {
@@ -705,7 +706,7 @@ func caseFromID(id string) kase {
 func main() {
 	if pool.IsWorker() {
 		defer cleanupScratch()
-		pool.Serve(map[string]pool.Handler{"tok": tokWorker, "str": strWorker, "bytes": byteWorker, "corpus": corpusWorker, "ladder": ladderWorker, "prog": progWorker, "unit": unitWorker, "reparse": reparseWorker, "reduce": reduceWorker, "one": oneWorker})
+		pool.Serve(map[string]pool.Handler{"tok": tokWorker, "str": strWorker, "bytes": byteWorker, "corpus": corpusWorker, "ladder": ladderWorker, "prog": progWorker, "unit": unitWorker, "reparse": reparseWorker, "reduce": reduceWorker, "one": oneWorker, "conc": concWorker})
 	}
 	c := ev.New("C01")
 	if c.Replay != "" {
@@ -983,6 +984,51 @@ func main() {
 		}, func(d pool.Death) {})
 	}
 
+	// (h) concurrent lexing + parsing under the controlled scheduler (conc.go)
+	var concExecs int64
+	concScen, concComplete := 0, 0
+	concSites := map[string]bool{}
+	if fam := os.Getenv("VERIF_C01_FAM"); fam != "" && !strings.Contains(fam, "h") {
+		// restricted development run
+	} else if c.Expired() {
+		c.NotExhaustive("family (h) concurrent parsing not run: budget used up")
+	} else {
+		pool.Run(concShards(quick), pool.Options{HangTimeout: 10 * time.Minute}, func(si int, rb json.RawMessage) {
+			var r concRec
+			if json.Unmarshal(rb, &r) != nil {
+				return
+			}
+			switch r.Kind {
+			case "concfail":
+				cs := r.Case
+				cs.Choices, cs.Sites = r.Choices, r.Sites
+				c.Fail(r.Key, "never-a-crash:under-any-schedule", len(r.Choices), map[string]any{"conc": cs}, r.Detail)
+			case "concsum":
+				concScen++
+				concExecs += r.Execs
+				for _, s := range r.Sites {
+					concSites[sched.SiteStable(s)] = true
+				}
+				if r.Complete {
+					concComplete++
+				} else {
+					c.NotExhaustive(fmt.Sprintf("scenario %s stopped (%s) after %d executions", r.Scenario, r.Stop, r.Execs))
+				}
+			}
+		}, func(d pool.Death) {
+			c.Fail("conc-parse:worker-death:"+firstLines(d.Stderr, 1), "never-a-crash:under-any-schedule", 0, map[string]any{"item": d.Item}, d.Reason+"\n"+firstLines(d.Stderr, 14))
+		})
+	}
+	total["h-concurrent-parse"] = concExecs
+	c.Set("conc_parse_scenarios", concScen)
+	c.Set("conc_parse_scenarios_complete", concComplete)
+	var cps []string
+	for s := range concSites {
+		cps = append(cps, s)
+	}
+	sort.Strings(cps)
+	c.Set("conc_parse_shared_sites", cps)
+
 	sweep()
 	var execs int64
 	for f, n := range total {
@@ -1064,6 +1110,22 @@ func firstLines(s string, n int) string {
 
 func replay(c *ev.Check) {
 	var k kase
+	var ck struct {
+		Conc *concShard `json:"conc"`
+	}
+	if key, err := ev.LoadReplay(c.Replay, &ck); err == nil && ck.Conc != nil {
+		fmt.Printf("recorded key: %s\nscenario: %s\n", key, ck.Conc.String())
+		keys := concReplay(*ck.Conc, ck.Conc.Choices, ck.Conc.Sites)
+		if len(keys) == 0 {
+			fmt.Println("conforms")
+		}
+		for _, kk := range keys {
+			fmt.Println("violates never-a-crash:under-any-schedule:", kk)
+			c.Fail(kk, "never-a-crash:under-any-schedule", 0, ck, "replayed")
+		}
+		c.Finish(1, 1, 1, "replay")
+		return
+	}
 	key, err := ev.LoadReplay(c.Replay, &k)
 	if err != nil {
 		fmt.Println("replay:", err)
